@@ -15,6 +15,42 @@ RULE = ('incr: histories on real trees (layouts: single target, two projects wit
         'non-trivial = distinct (layout, target, outcome, observed world relative to the tree root, record before, result)')
 
 
+def inherited_outputs(ck):
+    """real binary, three invocations: build; re-run untouched; edit the input of a producer: the producer runs again and
+    rewrites its output with new content, and every consumer inheriting that output through `X.output` — named under
+    `dependencies` as well, or not — must run again"""
+    import concurrent.futures
+    import random
+    from slices import engine, sysrun
+    ck.rule('inherited outputs: one producer whose output is a copy of its input, 2-4 consumers with `producer.output` in their '
+            'inputs (half of them also list the producer under `dependencies`), requested through an aggregate or one by one; '
+            'invocation, untouched re-run, edit of the producer\'s input, third invocation: producer and every consumer run again')
+    shapes = []
+    for _ in range(5 if ck.tier == 'quick' else 50):
+        r = random.Random(ck.rng.getrandbits(48))
+        k = r.choice([2, 2, 3, 4])
+        T = {'gen': {'kind': 'build', 'deps': []}}
+        for i in range(k):
+            T['use%d' % i] = {'kind': 'build', 'deps': ['gen']}
+        T['all'] = {'kind': 'aggregate', 'deps': ['use%d' % i for i in range(k)]}
+        roots = r.choice([['all'], ['gen'] + ['use%d' % i for i in range(k)], ['use%d' % i for i in range(k)]])
+        shapes.append((T, roots, r))
+    found = []
+
+    def one(x):
+        T, roots, r = x
+        return x, sysrun.oneshot(r, T, roots, gated=r.random() < 0.5, tag='C02o%d' % r.getrandbits(20), implied_p=1.0, implied_keep_p=0.5,
+                                 second_run=True)
+    with concurrent.futures.ThreadPoolExecutor(max_workers=5) as ex:
+        for (T, roots, r), (obs, V) in ex.map(one, shapes):
+            ck.count(('inherited', str(sorted(T.items())), tuple(roots), str(obs.get('dependencies_declared_through_X.output'))),
+                     sample={'targets': T, 'roots': roots, 'second_and_third_run': obs.get('second_run')})
+            ck.tally('sys:inherited-outputs')
+            if 'C02' in V:
+                found.append((obs, V['C02']))
+    engine.report_sys(ck, 'C02', found)
+
+
 def run(ck):
     d = vf.scratch_dir('C02')
     n = 300 if ck.tier == 'quick' else 2500
@@ -25,6 +61,7 @@ def run(ck):
     incr.check_histories_parallel(ck, d, batches, ('C02',))
     from slices import engine
     engine.two_invocations(ck, 'C02', n_quick=6, fail_p=0.6)
+    inherited_outputs(ck)
     incr.flush(ck)
     vf.sh(['rm', '-rf', d])
 
